@@ -30,6 +30,10 @@ from .env import LoggerStub, boot
 T0 = 1000000.0
 PORTS = [10767, 10768, 10769, 10770]
 CUR = [None]
+# the events the code-shaped model (spec/ServerRun.tla, Gen_ServerRun.tla) speaks about
+OBS = {'boot', 'create', 'start', 'ready', 'report', 'noiface', 'mdown', 'ret', 'up', 'disc_new', 'stopped', 'hook',
+       'down', 'if_begin', 'bind', 'bindfail', 'serve_b', 'serve_e', 'close', 'if_end', 'disc_close',
+       'ish_b', 'ish_e', 'req_b', 'req_e'}
 
 
 # --------------------------------------------------------------------------- scheduler with signal delivery
@@ -166,6 +170,9 @@ class World:
         self.notified = []
         self.srv = None
         self.req_open = {}
+        self.nobs = 0
+        self.modst = {}
+        self.snaps = []
 
     # ---- bookkeeping
     def kind(self, g, i):
@@ -195,10 +202,25 @@ class World:
             return e
         e['th'] = self.role()
         e['vt'] = int(round((s.now - T0) * 10))        # tenths of a virtual second
+        name = e['ev']
+        if name in ('create', 'start', 'mdown'):
+            self.modst.setdefault(e['g'], {})[e['m']] = {'create': 'created', 'start': 'started', 'mdown': 'down'}[name]
         self.log.append(e)
+        self.snaps.append(self.snapshot())
+        if name in OBS:
+            self.nobs += 1
         if s.me() is not None and not s.aborting:
             s.yield_('ev')
         return e
+
+    def snapshot(self):
+        """projected state (the vocabulary of Proj in spec/Gen_ServerRun.tla)"""
+        g = self.gen
+        ms = set(self.modst.get(g, {}).values())
+        mods = 'none' if not ms else 'started' if ms == {'started'} else 'down' if ms == {'down'} else 'mixed'
+        return {'gen': g, 'lis': sorted(i for (g2, i) in self.listening if g2 == g),
+                'disc': sorted({k.g for k in self.socks if not k.closed}), 'mods': mods,
+                'ret': self.result.get('run') == 'ret'}
 
     def on_log(self, name, level, text):
         srv = self.srv
@@ -307,6 +329,7 @@ class World:
             try:
                 s.block(lambda: self._x_req or i in world.crash, None, 'serve')
                 if not self._x_req:
+                    world.crash.discard(i)
                     world.ev(ev='serve_e', g=g, i=i, res='crash')
                     raise OSError(errno.EIO, 'scripted failure of the serving loop')
                 world.ev(ev='serve_e', g=g, i=i, res='ok')
@@ -391,7 +414,7 @@ class World:
                 pass
 
             def bind(self, addr):
-                pass
+                world.s.yield_('udp.bind')
 
             def recvfrom(self, n, *flags):
                 s = world.s
@@ -456,8 +479,7 @@ class World:
             def __init__(self, eq, descr, ifaces, logger, **kw):
                 super().__init__(eq, descr, ifaces, logger, **kw)
                 self._x_g = self.sock.g
-                world.ev(ev='disc_new', g=self._x_g, ports=sorted(world.index(p) for p in self.ports),
-                         given=sorted(world.index(u) for u in ifaces))
+                self._x_given = sorted(world.index(u) for u in ifaces)
 
             def run(self):
                 me = world.s.me()
@@ -472,6 +494,13 @@ class World:
                     world.ev(ev='disc_end', g=self._x_g)
 
         class Srv(srvmod.Server):
+            def __setattr__(self, name, value):
+                # `self.discovery = UDPListener(...)`: from now on restart() / shutdown() see the responder
+                object.__setattr__(self, name, value)
+                if name == 'discovery' and value is not None:
+                    world.ev(ev='disc_new', g=value._x_g, ports=sorted(world.index(p) for p in value.ports),
+                             given=value._x_given)
+
             def _processCfg(self):
                 world.gen += 1
                 g = world.gen
@@ -568,6 +597,8 @@ class World:
     def enabled(self, op):
         if op.get('vt') is not None and self.s.now - T0 < op['vt']:
             return False
+        if op.get('nobs') is not None:
+            return self.nobs >= op['nobs']
         pat = op.get('after')
         if not pat:
             return True
@@ -586,11 +617,12 @@ class World:
         for k, op in enumerate(ops, 1):
             if not self.enabled(op):
                 # (a time condition is a deadline, an event condition is looked at by the controller)
+                tmax = self.case.get('tmax', 40)
                 while not self.enabled(op):
                     if op.get('vt') is not None and s.now - T0 < op['vt']:
                         s.sleep(op['vt'] - (s.now - T0))
-                    else:
-                        s.block(lambda: self.enabled(op), None, 'env')
+                    elif not s.block(lambda: self.enabled(op), max(0.0, tmax + 1 - (s.now - T0)), 'env'):
+                        return          # its moment never came
             do = op['do']
             rid = '%s%d' % (name, k)
             if do in ('sigterm', 'sigint'):
@@ -692,5 +724,37 @@ class World:
 
     def summary(self, err=''):
         s = self.s
-        return {'trace': self.log, 'choices': [c for _, c in s.choices], 'raw_choices': list(s.choices),
-                'deadlock': s.deadlock, 'livelock': s.livelock, 'err': err}
+        exc = {self.roles.get(n, n): type(t.exc).__name__ for n, t in s.threads.items() if t.exc is not None}
+        return {'trace': self.log, 'snaps': self.snaps, 'choices': [c for _, c in s.choices], 'raw_choices': list(s.choices),
+                'deadlock': s.deadlock, 'livelock': s.livelock, 'err': err, 'thread_exc': exc}
+
+
+class CanonStrategy:
+    """the canonical schedule of spec/Gen_ServerRun.tla: a request that can go on goes on, a request whose moment
+    has come begins, then the thread of run(), then interface threads (lowest index first), then responder threads;
+    poll threads and everything else only when nobody of those can run"""
+
+    def __init__(self, world):
+        self.w = world
+
+    def __call__(self, enabled, s):
+        w = self.w
+        env = sorted(n for n in enabled if n in w.case.get('threads', {}))
+        for n in env:
+            if w.req_open.get(n):
+                return n
+        if env:
+            return env[0]
+        if 'main' in enabled:
+            return 'main'
+        ifs = sorted((w.tgen.get(n, 0), int(w.roles[n][2:]), n) for n in enabled if w.roles.get(n, '').startswith('if'))
+        if ifs:
+            return ifs[0][2]
+        # a thread that has not told yet who it is (just created): let it run up to its first event
+        fresh = [n for n in enabled if n not in w.roles]
+        if fresh:
+            return fresh[0]
+        disc = sorted((w.tgen.get(n, 0), n) for n in enabled if w.roles.get(n) == 'disc')
+        if disc:
+            return disc[0][1]
+        return enabled[0]
